@@ -243,14 +243,42 @@ fn offset_to_position(input: &str, offset: usize) -> Position {
     Position::new(line, col)
 }
 
+/// Maximum nesting depth of expressions and types accepted by the parser.
+///
+/// The parser is recursive; without a limit, deeply nested input overflows the stack.
+const MAX_NESTING_DEPTH: usize = 1000;
+
 struct Parser {
     tokens: Vec<Spanned>,
     pos: usize,
+    /// Current nesting depth of `parse_expr` / `parse_type_atom` calls.
+    depth: usize,
 }
 
 impl Parser {
     fn new(tokens: Vec<Spanned>) -> Self {
-        Parser { tokens, pos: 0 }
+        Parser {
+            tokens,
+            pos: 0,
+            depth: 0,
+        }
+    }
+
+    /// Enter a nested expression or type, failing if the nesting is too deep.
+    fn enter(&mut self) -> Result<(), ErrorSet> {
+        if self.depth >= MAX_NESTING_DEPTH {
+            return Err(ErrorSet::single(
+                self.current_position(),
+                Error::ParseFailed(Some("nesting too deep".into())),
+            ));
+        }
+        self.depth += 1;
+        Ok(())
+    }
+
+    /// Leave a nested expression or type.
+    fn leave(&mut self) {
+        self.depth -= 1;
     }
 
     fn peek(&self) -> Option<&Token> {
@@ -396,6 +424,13 @@ fn parse_arrow(p: &mut Parser) -> Result<(Option<Type>, Option<Type>), ErrorSet>
 
 /// Parse an expression
 fn parse_expr<J: Jet + 'static>(p: &mut Parser) -> Result<Expression, ErrorSet> {
+    p.enter()?;
+    let res = parse_expr_nested::<J>(p);
+    p.leave();
+    res
+}
+
+fn parse_expr_nested<J: Jet + 'static>(p: &mut Parser) -> Result<Expression, ErrorSet> {
     let position = p.current_position();
 
     match p.peek().cloned() {
@@ -689,6 +724,13 @@ fn parse_type(p: &mut Parser) -> Result<Option<Type>, ErrorSet> {
 
 /// Parse a type atom
 fn parse_type_atom(p: &mut Parser) -> Result<Option<Type>, ErrorSet> {
+    p.enter()?;
+    let res = parse_type_atom_nested(p);
+    p.leave();
+    res
+}
+
+fn parse_type_atom_nested(p: &mut Parser) -> Result<Option<Type>, ErrorSet> {
     match p.peek().cloned() {
         Some(Token::One) => {
             p.advance();
